@@ -26,7 +26,7 @@ pub fn main(dir: &str, seed: u64) -> (i32, Value) {
     let t0 = std::time::Instant::now();
     std::fs::create_dir_all(dir).expect("scratch dir");
     let mut r = Rng::new(seed);
-    let mut sizes = vec![0usize, 1, 4, 5, 9, 10, 49, 50, 51, 127, 128, 4095, 4096, 4097, 8192, 65535, 65536, 65537, MIB - 4097, MIB - 4096, MIB - 4095, MIB - 1, MIB, MIB + 1, 2 * MIB - 1, 2 * MIB, 2 * MIB + 1, 3 * MIB + 7];
+    let mut sizes = vec![0usize, 1, 4, 5, 9, 10, 49, 50, 51, 127, 128, 4095, 4096, 4097, 8192, 65535, 65536, 65537, MIB - 4097, MIB - 4096, MIB - 4095, MIB - 1, MIB, MIB + 1, 2 * MIB - 1, 2 * MIB, 2 * MIB + 1, 3 * MIB - 1, 3 * MIB, 3 * MIB + 1, 3 * MIB + 7, 4 * MIB, 4 * MIB + 1, 5 * MIB + 3];
     for _ in 0..6 {
         sizes.push(r.range(1, 300_000) as usize);
         sizes.push(r.range(MIB as u64 - 9000, MIB as u64 + 9000) as usize);
